@@ -128,6 +128,18 @@ def reference(hist, impl_out):
         elif op == "assignsub":
             off, n = int(t[2]), int(t[3])
             q[v] = q[v][off:off + n]
+        elif op in ("prependraw", "appendraw", "assignraw"):
+            # a (pointer, size) argument anywhere in the buffer's own allocation: the harness reports which range relative to
+            # bufferStart it resolved to (` ~ back fwd len`, cross-checked with the model's resolution); its bytes are the
+            # queue's bytes where the range overlaps the exposed bytes and unspecified elsewhere (head-room, terminator,
+            # spare capacity) - as if the bytes had been copied first
+            try:
+                back, fwd, n = (int(x) for x in impl_out[k].split(" ~ ")[1].split(" "))
+            except (IndexError, ValueError):
+                out.append(None)
+                return out          # the implementation faulted on this line: reported by the comparison
+            sl = [q[v][fwd + i - back] if back <= fwd + i < back + len(q[v]) else None for i in range(n)]
+            q[v] = sl + q[v] if op == "prependraw" else q[v] + sl if op == "appendraw" else sl
         elif op == "append":
             q[v] = q[v] + unhex(t[2])
         elif op == "appendb":
@@ -217,13 +229,20 @@ def gen_history(rng, length, attached_regions=True, big=False):
         elif k < 0.75:
             if ln[v] + ln[w] > 4000: continue
             op = f"prependb {v} {w}"; ln[v] += ln[w]
-        elif k < 0.765:
+        elif k < 0.76:
             off = rng.randrange(ln[v] + 2)
             m = min(n, 300)
             sub = min(m, max(0, ln[v] - min(off, ln[v])))
             kind = rng.choice(["prependsub", "appendsub", "appendsub", "assignsub"])
             op = f"{kind} {v} {off} {m}"
             ln[v] = sub if kind == "assignsub" else ln[v] + sub
+        elif k < 0.775:
+            kind = rng.choice(["prependraw", "appendraw", "appendraw", "assignraw"])
+            off = rng.choice([0, 0, 1, 2, last_removed[v], max(0, last_removed[v] - 1), last_removed[v] + ln[v],
+                              last_removed[v] + ln[v] + 1, ln[v], rng.randrange(ln[v] + last_removed[v] + 3)])
+            m = min(n, 300)
+            op = f"{kind} {v} {off} {m}"
+            ln[v] = m if kind == "assignraw" else ln[v] + m     # an estimate (the range is clamped to the allocation)
         elif k < 0.78: op = f"swap {v} {w}"; ln[v], ln[w] = ln[w], ln[v]; last_removed[v], last_removed[w] = last_removed[w], last_removed[v]
         elif k < 0.81: op = f"clear {v}"; ln[v] = 0
         elif k < 0.84: op = f"free {v}"; ln[v] = 0
@@ -278,6 +297,7 @@ SMALL_OPS = [
     "removeBack 0 1", "removeBack 0 3", "reserve 0 4", "clear 0", "free 0", "swap 0 1", "assignb 0 1", "assignb 0 0",
     "appendb 0 1", "appendb 0 0", "prependb 0 1", "prependb 0 0", "copy 1 0", "new 0", "eq 0 1",
     "prependsub 0 1 1", "prependsub 0 0 2", "appendsub 0 1 1", "appendsub 0 0 2", "assignsub 0 1 2",
+    "prependraw 0 1 2", "appendraw 0 0 2", "appendraw 0 4 2", "assignraw 0 0 9",
 ]
 
 
@@ -306,7 +326,11 @@ def boundary_family(maxcap):
                     d = hexs([0x41 + i for i in range(n)])
                     tails += [f"resize 0 {n}", f"append 0 {d}", f"prepend 0 {d}", f"assign 0 {d}", f"removeBack 0 {n}",
                               f"reserve 0 {n}"]
-                hs += [pre + [t, "state 0", "state 1", "heap", "prepend 0 7a", "eq 0 1", "state 0", "heap"] for t in tails]
+                # every sub-range [off, off+n) of the allocation of cap+1 bytes (and one past) as (pointer, size) argument
+                for off in range(cap + 2):
+                    for n in range(cap + 3 - off):
+                        tails += [f"prependraw 0 {off} {n}", f"appendraw 0 {off} {n}", f"assignraw 0 {off} {n}"]
+                hs += [pre + ["state 0", t, "state 0", "state 1", "heap", "prepend 0 7a", "eq 0 1", "state 0", "heap"] for t in tails]
     return hs
 
 
@@ -503,6 +527,20 @@ def branch_stats(hist, impl_out, cnt):
         elif op == "assignsub":
             off = min(int(t[2]), size)
             assign(b, min(int(t[3]), size - off), "assignsub")
+        elif op in ("prependraw", "appendraw", "assignraw"):
+            try:
+                back, fwd, n = (int(x) for x in impl_out[k_].split(" ~ ")[1].split(" "))
+            except (IndexError, ValueError):
+                return
+            src = b[1] + fwd - back
+            where = ("window" if b[1] <= src and src + n <= b[2] else "headroom" if src + n <= b[1] else
+                     "spare" if src >= b[2] else "straddles") if b[0] == "own" else b[0]
+            hit(f"{op}.arg-in-{where}")
+            if op == "prependraw": prepend(b, n, "prependraw", True)
+            elif op == "assignraw": assign(b, n, "assignraw")
+            elif b[0] == "own" and src <= b[3] and (src < b[1] or src + n > b[2]):
+                resize(b, size + n, "appendraw.copy-first")
+            else: resize(b, size + n, "appendraw")
         elif op == "append": resize(b, size + dl, "append")
         elif op == "appendb": resize(b, size + osz, "appendb.self" if v == w else "appendb")
         elif op == "resize": resize(b, int(t[2]), "resize")
@@ -544,7 +582,7 @@ def branch_stats(hist, impl_out, cnt):
 
 
 CAP_OPS = {"new", "newcap", "newdata", "copy", "attach", "assignb", "assign", "prepend", "prependb", "prependsub",
-           "appendsub", "assignsub",
+           "appendsub", "assignsub", "prependraw", "appendraw", "assignraw",
            "append", "appendb", "resize", "removeFront", "removeBack", "reserve", "clear", "free"}
 
 
